@@ -102,6 +102,32 @@ pub fn zip_wrap(method: u16, name: &[u8], extra: &[u8], stream: &[u8], plain: &[
     v
 }
 
+/// zip local header with explicit flag and size fields (streamed entries, zip64 placeholders, wrong sizes)
+#[allow(clippy::too_many_arguments)]
+pub fn zip_wrap_ex(flags: u16, csize: u32, usize_: u32, crc: u32, name: &[u8], extra: &[u8], stream: &[u8], descriptor: bool, plain: &[u8]) -> Vec<u8> {
+    let mut v = vec![0x50, 0x4b, 0x03, 0x04];
+    v.extend_from_slice(&20u16.to_le_bytes());
+    v.extend_from_slice(&flags.to_le_bytes());
+    v.extend_from_slice(&8u16.to_le_bytes());
+    v.extend_from_slice(&0u16.to_le_bytes());
+    v.extend_from_slice(&0u16.to_le_bytes());
+    v.extend_from_slice(&crc.to_le_bytes());
+    v.extend_from_slice(&csize.to_le_bytes());
+    v.extend_from_slice(&usize_.to_le_bytes());
+    v.extend_from_slice(&(name.len() as u16).to_le_bytes());
+    v.extend_from_slice(&(extra.len() as u16).to_le_bytes());
+    v.extend_from_slice(name);
+    v.extend_from_slice(extra);
+    v.extend_from_slice(stream);
+    if descriptor {
+        v.extend_from_slice(&[0x50, 0x4b, 0x07, 0x08]);
+        v.extend_from_slice(&crc32(plain).to_le_bytes());
+        v.extend_from_slice(&(stream.len() as u32).to_le_bytes());
+        v.extend_from_slice(&(plain.len() as u32).to_le_bytes());
+    }
+    v
+}
+
 pub fn png_chunk(kind: &[u8; 4], payload: &[u8]) -> Vec<u8> {
     let mut v = (payload.len() as u32).to_be_bytes().to_vec();
     let mut body = kind.to_vec();
